@@ -418,6 +418,7 @@ def run(plan, ch, want_log=False):
         old_alarm = signal.signal(signal.SIGALRM, _alarm)
         signal.setitimer(signal.ITIMER_REAL, WALL_SPIN_S)
     viol = []
+    warm_spin = False
     if plan.get("rerun"):
         # warm-up: a complete earlier run of the same job with the same Preschedule object (nothing of it is judged; what it may
         # leave behind in the Preschedule is what the judged run below starts from)
@@ -427,14 +428,18 @@ def run(plan, ch, want_log=False):
             impl.run(job, b0, pre)
             b.probes["rerun_after_complete_run"] += 1
         except Spin:
-            viol.append(("C03", "spin", dict(warmup=True), dict(inverted=False, swapped=False)))
+            warm_spin = True
         except Exception:
             b.probes["rerun_after_aborted_run"] += 1
         cnt.update(b=b, n=0, calls=-1)
         simtasks.reset()
+        if use_alarm:
+            signal.setitimer(signal.ITIMER_REAL, WALL_SPIN_S)      # the alarm is one-shot: armed afresh for the judged run
     D = sum(len(t.definition.output_schema) for t in job.tasks.values())
     H, R = len(b.store), len(job.ext_outputs)
     try:
+        if warm_spin:
+            raise Spin()       # the warm-up run never came back: the same verdict, and no second attempt
         st = impl.run(job, b, pre)
         if set(st.outputs) != set(job.ext_outputs):
             viol.append(("C01", "wrong_output_keys", (sorted(map(repr, st.outputs)), sorted(map(repr, job.ext_outputs))), {}))
